@@ -19,7 +19,7 @@ struct Case {
     discovery: Option<Vec<TargetRec>>,
 }
 
-const LOCALES: &[&str] = &["de_de", "de_at", "pt_br", "en_us", "en_gb", "zz", "", "zh_hant_tw", "fr", "de", "x_y_z_w"];
+const LOCALES: &[&str] = &["de_de", "de_at", "pt_br", "en_us", "en_gb", "zz", "", "zh_hant_tw", "fr", "de", "x_y_z_w", "tlh_klingon_extended_x", "ru_кириллица_длинная"];
 
 /// Java style: language lower case, every later part upper case ("pt_BR"); the table and the client
 /// of one scenario always use the same style, so no two spellings differ only in case.
@@ -32,7 +32,7 @@ fn styled(locale: &str, upper: bool) -> String {
 
 fn table(rng: &mut Rng, upper: bool) -> (String, Vec<(String, Vec<(String, String)>)>) {
     // every locale gets a distinct message so that a wrong fall-back is visible
-    let pool = ["de_de", "de", "pt", "pt_br", "en", "en_us", "zh", "zh_hant", "zh_hant_tw", "fr", "x", "x_y", "x_y_z"];
+    let pool = ["de_de", "de", "pt", "pt_br", "en", "en_us", "zh", "zh_hant", "zh_hant_tw", "fr", "x", "x_y", "x_y_z", "tlh", "tlh_klingon_extended_x", "ru", "ru_кириллица_длинная"];
     let pool: Vec<String> = pool.iter().map(|l| styled(l, upper)).collect();
     let mut messages = vec![];
     for loc in pool {
